@@ -35,6 +35,9 @@ def get_static_file(path, static_files):
             elif path + '/' in static_files:
                 f = static_files[path + '/']
                 break
+    if f and '..' in extra_path.split('/'):
+        # never serve files from outside of the mapped directory
+        f = None
     if f:
         if isinstance(f, str):
             f = {'filename': f}
